@@ -14,7 +14,7 @@ from harness import wave_common as W
 
 PROPS = ['C02_zero_distance_identity', 'C02_zero_distance_identity_numpy_fresnel', 'C02_two_steps_compose',
          'C02_two_steps_compose_numpy_fresnel', 'C02_step_programs', 'C02_kernel_compose', 'C02_kernel_zero',
-         'C02_kernel_undo', 'C02_kernel_program', 'C02_pad_crop_identity']
+         'C02_kernel_undo', 'C02_kernel_program', 'C02_pad_crop_identity', 'C02_step_programs_numpy_fresnel', 'C02_distance_programs']
 TOL = {'torch': 3e-3, 'numpy': 1e-8}
 METHODS = ['Angular Spectrum', 'Transfer Function Fresnel', 'Bandlimited Angular Spectrum']
 
@@ -85,8 +85,30 @@ def oracle_compose(inp):
     return out
 
 
-ORACLES = {'zero': oracle_zero, 'compose': oracle_compose}
-FN = {'torch': 'odak.learn.wave.propagate_beam', 'numpy': 'odak.wave.propagate_beam'}
+def oracle_propagator(inp):
+    """'back and forth' propagator objects (product of a forward and a backward kernel): every (channel, depth) output equals ONE
+    propagation by the net distance z_d - image_location_offset with pad-then-crop, for every wavelength and in any order of calls (so the plane at the offset
+    itself is a propagation by distance 0)"""
+    from odak.learn.wave import propagator
+    rng = np.random.default_rng(inp['fseed'])
+    h, w = inp['shape']
+    u = torch.tensor(W.cfield(rng, (h, w)), dtype=torch.complex64)
+    off = inp['offset']
+    p = propagator(resolution=[h, w], wavelengths=list(inp['lams']), pixel_pitch=inp['dx'], number_of_depth_layers=len(inp['zs']), distances=list(inp['zs']),
+                   image_location_offset=off, propagation_type=inp['method'], propagator_type='back and forth', back_and_forth_distance=inp['zm'])
+    out = []
+    for c, d in inp['order']:
+        y = p(u, c, d)
+        lam = inp['lams'][c]; net = inp['zs'][d] - off
+        # the object's own Fourier-plane aperture (a circular 0/1 mask on the doubled grid by default) is part of both sides
+        ref = W.t_prop(u, inp['method'], net, inp['dx'], lam, zero_padding=(True, False, True), aperture=p.aperture)
+        e = rel(y, ref)
+        out.append(('back_and_forth_equals_net_distance', e <= 2 * TOL['torch'], '<= %g (channel %d, depth %d)' % (2 * TOL['torch'], c, d), e))
+    return out
+
+
+ORACLES = {'zero': oracle_zero, 'compose': oracle_compose, 'propagator': oracle_propagator}
+FN = {'torch': 'odak.learn.wave.propagate_beam', 'numpy': 'odak.wave.propagate_beam', 'propagator': 'odak.learn.wave.propagator.__call__'}
 
 
 def apply_oracle(ctx, name, inp):
@@ -123,6 +145,15 @@ def gen_inputs(ctx, n):
             for m in METHODS:
                 shp = ([2] + shape) if (api == 'torch' and i % 4 == 0) else shape
                 out.append(('compose', {'api': api, 'method': m, 'shape': shp, 'lam': lam, 'dx': dx, 'zs': zs, 'fseed': rng.randrange(10 ** 6)}))
+        if i % 3 == 0 and min(shape) >= 5:      # torch zero_pad reads 2-D arrays with a side below 5 as channel-last (property C08 starts at 5)
+            lams = [lam, lam * 1.15, lam * 1.3]
+            off = rng.uniform(2, 8)
+            dzs = [off + rng.uniform(-6, 6), off, off + rng.uniform(-6, 6)]
+            order = [(c, d) for c in range(3) for d in range(3)]
+            rng.shuffle(order)
+            for m in METHODS[:2]:
+                out.append(('propagator', {'api': 'propagator', 'method': m, 'shape': shape, 'lams': lams, 'dx': 1.3 * lam * rng.uniform(0.75, 4.0), 'zs': dzs, 'offset': off,
+                                           'zm': rng.uniform(5, 25), 'order': [list(x) for x in order[:6]], 'fseed': rng.randrange(10 ** 6)}))
     return out
 
 
